@@ -40,8 +40,18 @@ def recipe_yaml(rc):
         out.append("checkoutSCM:\n    scm: import\n    url: %s" % yaml_str(rc["import"]))
         if rc.get("importdir"):
             out.append("    dir: %s" % yaml_str(rc["importdir"]))
+    if rc.get("url"):
+        u = rc["url"]
+        out.append("checkoutSCM:\n    scm: url\n    url: %s\n    extract: False" % yaml_str(u["url"]))
+        if u.get("digest"):
+            out.append("    digest%s: %s" % (u["digest"].upper(), yaml_str(u["value"])))
+    if rc.get("git"):
+        out.append("checkoutSCM:\n    scm: git\n    url: %s\n    branch: master" % yaml_str(rc["git"]["url"]))
+    if rc.get("checkoutTools"):
+        out.append("checkoutTools: [%s]" % ", ".join(rc["checkoutTools"]))
     if rc.get("checkoutScript"):
-        out.append("checkoutDeterministic: True")
+        if not rc.get("indet"):
+            out.append("checkoutDeterministic: True")
         out.append("checkoutScript: |\n" + indent(rc["checkoutScript"]))
     if rc.get("buildTools"):
         out.append("buildTools: [%s]" % ", ".join(rc["buildTools"]))
@@ -83,6 +93,53 @@ PACKAGE = """\
 cat "$1"/*.txt > result.txt
 %s
 """
+
+
+FLAVORS = ["cscript", "url", "archive", "git", "indet", "sandbox"]
+
+
+def flavor_of(idx):
+    return FLAVORS[idx % 6]
+
+
+def apply_flavor(r, idx, recipes, files, names):
+    """make sure every sixth project exercises one more kind of checkout (the rest stays random)"""
+    import hashlib
+    fl = flavor_of(idx)
+    victim = recipes[r.choice(names)]
+    name = victim["name"]
+
+    def clear():
+        for k in ("import", "importdir", "checkoutScript", "url", "git", "indet"):
+            victim.pop(k, None)
+        victim["buildScript"] = victim["buildScript"].replace('cat "$1"/sub/*.txt', 'cat "$1"/*.txt')
+        for k in [k for k in files if k.startswith("src/%s/" % name)]:
+            del files[k]
+    if fl == "cscript":
+        clear()
+        victim["checkoutScript"] = "echo gen-%s-%d > gen.txt" % (name, r.randrange(1000))
+    elif fl == "url":
+        clear()
+        text = "url source of %s #%d\n" % (name, r.randrange(1000))
+        files["urlsrc/%s/main.txt" % name] = text
+        kind = [None, "sha1", "sha256"][(idx // 6 + 1) % 3]
+        victim["url"] = {"url": "@PROJ@/urlsrc/%s/main.txt" % name, "digest": kind,
+                         "value": hashlib.new(kind, text.encode()).hexdigest() if kind else None}
+    elif fl == "git":
+        clear()
+        victim["git"] = {"url": "@PROJ@/gitsrc/%s" % name, "files": {"main.txt": "git source of %s #%d\n" % (name, r.randrange(1000)),
+                                                                      "inc/x.txt": "x\n"}}
+    elif fl == "indet":
+        clear()
+        victim["checkoutScript"] = "echo indet-%s > gen.txt" % name
+        victim["indet"] = True
+        tools = [(n, rc["provideTools"][0]) for n, rc in recipes.items() if rc.get("provideTools") and n != name
+                 and names.index(n) > names.index(name) and n not in victim.get("deps", []) and n not in victim.get("tooldeps", [])]
+        if tools:
+            t = r.choice(tools)
+            victim.setdefault("tooldeps", []).append(t[0])
+            victim["checkoutTools"] = [t[1]]
+    return name
 
 
 def gen_project(r, idx, sandbox=False):
@@ -142,6 +199,7 @@ def gen_project(r, idx, sandbox=False):
                 if rc["name"] in other.get("deps", []):
                     other["deps"] = sorted(set(x for x in other["deps"] if x != rc["name"]) |
                                            {rc["name"] + "-" + r.choice(["a", "b"])} | ({rc["name"] + "-b"} if r.random() < 0.3 else set()))
+    special = apply_flavor(r, idx, recipes, files, names)
     if sandbox:
         recipes["sbx"] = {"name": "sbx", "packageScript": "echo canary > canary.txt\n", "provideSandbox": True, "buildScript": None}
         for rc in recipes.values():
@@ -150,57 +208,84 @@ def gen_project(r, idx, sandbox=False):
     for name, rc in recipes.items():
         files["recipes/%s.yaml" % name] = recipe_yaml(rc)
     roots = [rc["name"] for rc in recipes.values() if rc.get("root")]
-    return {"idx": idx, "files": files, "recipes": recipes, "roots": roots, "sandbox": sandbox}
+    return {"idx": idx, "files": files, "recipes": recipes, "roots": roots, "sandbox": sandbox, "special": special}
 
 
 def gen_plan(r, proj):
-    """invocations: fresh build, then 1-3 incremental ones"""
+    """invocations: fresh build, then 1-2 incremental ones.  The first edit follows the flavor of the project
+    (checkout re-executed with identical content, local modification of a url / git checkout, upstream commit, ...),
+    the rest is random."""
     base = list(proj["roots"]) + (["--sandbox"] if proj["sandbox"] else [])
+    fl = flavor_of(proj["idx"])
+    recipes = proj["recipes"]
+    sp = proj["special"]
     if r.random() < 0.3 and JOBS:
         base += ["-j", "3"]
-    if r.random() < 0.2 and not proj["sandbox"]:
+    gits = [{"path": "gitsrc/" + n, "files": rc["git"]["files"], "msg": "init"} for n, rc in recipes.items() if rc.get("git")]
+    if fl == "archive":
         # upload everything into a file archive, wipe the workspaces, build again from the downloaded dependencies
         files = dict(proj["files"])
         files["default.yaml"] = 'archive:\n    backend: file\n    path: "@ARCHIVE@"\n    flags: [download, upload]\n'
-        return [{"writes": files, "args": base + ["--upload", "--download", "no"], "kind": "fresh", "sandbox": False},
+        return [{"writes": files, "git": gits, "args": base + ["--upload", "--download", "no"], "kind": "fresh", "sandbox": False},
                 {"writes": {}, "remove": ["dev", ".bob-state.pickle"], "args": base + ["--download", r.choice(["deps", "yes"])],
                  "kind": "redownload", "sandbox": False}]
-    plan = [{"writes": dict(proj["files"]), "args": base, "kind": "fresh", "sandbox": proj["sandbox"]}]
-    recipes = proj["recipes"]
-    noaudit_seen = False
+    plan = [{"writes": dict(proj["files"]), "git": gits, "args": base, "kind": "fresh", "sandbox": proj["sandbox"]}]
+    names = [n for n in recipes if n != "sbx"]
     for step in range(r.randrange(1, 3)):
-        k = r.random()
-        writes, kind, args = {}, "rerun", list(base)
-        names = [n for n in recipes if n != "sbx"]
-        if 0.3 <= k < 0.75 and not [n for n in names if recipes[n].get("import")]:
-            k = 0.1
-        if k < 0.3:
+        inv = {"writes": {}, "args": list(base), "kind": "rerun", "sandbox": proj["sandbox"]}
+        writes = inv["writes"]
+        kinds = ["script", "source", "neutral", "meta", "cscript", "rerun"]
+        if recipes[sp].get("url") or recipes[sp].get("git"):
+            kinds += ["wsedit", "wsedit", "upstream"]
+        k = r.choice(kinds)
+        if step == 0:
+            k = {"cscript": "cscript", "url": "wsedit", "git": r.choice(["wsedit", "upstream"]),
+                 "indet": r.choice(["meta", "rerun", "script"])}.get(fl, k)
+        imp = [n for n in names if recipes[n].get("import")]
+        cs = [n for n in names if recipes[n].get("checkoutScript")]
+        if k in ("source", "neutral") and not imp:
+            k = "script"
+        if k == "cscript" and not cs:
+            k = "script"
+        if k == "script":
             n = r.choice(names)
             recipes[n]["buildScript"] += "echo edit%d >> own.txt\n" % step
             writes["recipes/%s.yaml" % n] = recipe_yaml(recipes[n])
-            kind = "script:" + n
-        elif k < 0.55:
-            imp = [n for n in names if recipes[n].get("import")]
-            if imp:
-                n = r.choice(imp)
-                writes["src/%s/main.txt" % n] = "changed %d in step %d\n" % (r.randrange(1000), step)
-                kind = "source:" + n
-        elif k < 0.75:
-            imp = [n for n in names if recipes[n].get("import")]
-            if imp:
-                n = r.choice(imp)
-                writes["src/%s/unused%d.dat" % (n, step)] = "not used %d\n" % r.randrange(1000)
-                kind = "neutral:" + n
-        elif k < 0.85:
+            inv["kind"] = "script:" + n
+        elif k == "cscript":
+            # the checkout is executed again (recipe changed) and yields the very same content
+            n = sp if sp in cs and step == 0 else r.choice(cs)
+            recipes[n]["checkoutScript"] = "# comment %d\n" % step + recipes[n]["checkoutScript"]
+            writes["recipes/%s.yaml" % n] = recipe_yaml(recipes[n])
+            inv["kind"] = "cscript:" + n
+        elif k == "source":
+            n = r.choice(imp)
+            writes["src/%s/main.txt" % n] = "changed %d in step %d\n" % (r.randrange(1000), step)
+            inv["kind"] = "source:" + n
+        elif k == "neutral":
+            n = r.choice(imp)
+            writes["src/%s/unused%d.dat" % (n, step)] = "not used %d\n" % r.randrange(1000)
+            inv["kind"] = "neutral:" + n
+        elif k == "meta":
             n = r.choice(names)
             recipes[n].setdefault("meta", {})["ADDED"] = "v%d" % step
             writes["recipes/%s.yaml" % n] = recipe_yaml(recipes[n])
-            kind = "meta:" + n
-        if r.random() < 0.22:
-            args = args + ["--no-audit"]
-            kind += "+noaudit"
-            noaudit_seen = True
-        plan.append({"writes": writes, "args": args, "kind": kind, "sandbox": proj["sandbox"], "after_noaudit": noaudit_seen})
+            inv["kind"] = "meta:" + n
+        elif k == "wsedit":
+            # a developer changes the checked out source in the workspace
+            inv["wsedits"] = [{"recipe": sp, "rel": "main.txt", "text": "locally modified %d in step %d\n" % (r.randrange(1000), step)}]
+            inv["kind"] = "wsedit:" + sp
+        elif k == "upstream":
+            if recipes[sp].get("git"):
+                inv["git"] = [{"path": "gitsrc/" + sp, "files": {"main.txt": "upstream commit %d\n" % step}, "msg": "c%d" % step}]
+                inv["kind"] = "upstream:" + sp
+            elif not recipes[sp]["url"].get("digest"):
+                writes["urlsrc/%s/main.txt" % sp] = "new upstream file %d in step %d\n" % (r.randrange(1000), step)
+                inv["kind"] = "upstream:" + sp
+        if step > 0 and r.random() < 0.3:
+            inv["args"] = inv["args"] + ["--no-audit"]
+            inv["kind"] += "+noaudit"
+        plan.append(inv)
     return plan
 
 
@@ -226,6 +311,13 @@ def check_invocation(inv, plan_inv, bobver, strict_presence, spec_id, refs_of):
     by_ws = {}
     for s in inv["steps"]:
         by_ws.setdefault(s["ws"], []).append(s)
+    executed = {x[0] for x in inv.get("executed", [])}
+    audit_on = "--no-audit" not in plan_inv["args"]
+    # current trail of every workspace, addressable by (variant-id, label)
+    cur = {}
+    for s in inv["steps"]:
+        if s.get("audit"):
+            cur[(s["vid"], s["label"])] = s["audit"]
     for ws, group in sorted(by_ws.items()):
         s = group[0]
         if not s["exists"]:
@@ -238,6 +330,9 @@ def check_invocation(inv, plan_inv, bobver, strict_presence, spec_id, refs_of):
             if strict_presence:
                 yield ("audit-missing", "no audit trail next to %s although every invocation ran with audit" % ws, s)
             continue
+        if ws in executed and audit_on and not s.get("regenerated"):
+            # truthful for every step executed by the last invocation: its trail must be the trail of this execution
+            yield ("executed-step-kept-old-trail", "%s was executed by this invocation but its audit trail was not regenerated" % ws, s)
         art = tree["artifact"]
         by_id = {x.get("artifact-id"): x for x in tree["references"]}
         if s["schema"] != "ok":
@@ -266,10 +361,11 @@ def check_invocation(inv, plan_inv, bobver, strict_presence, spec_id, refs_of):
         # values of the run that produced the content (compared for regenerated trails only)
         if s.get("regenerated") and art.get("metaEnv", {}) != s["metaEnv"] and not any(art.get("metaEnv", {}) == g["metaEnv"] for g in group):
             yield ("metaEnv", "trail of %s records metaEnv %s, the package has %s" % (ws, art.get("metaEnv"), s["metaEnv"]), s)
-        if s["label"] == "src" and s.get("regenerated"):
-            exp = [x for x in s["scms"]]
-            if art["scms"] != exp:
-                yield ("scm-state", "trail of %s records scms %s, the checkout is %s" % (ws, art["scms"], exp), s)
+        if s["label"] == "src" and not any("error" in x for x in s["scms"]):
+            exp = s["scms"]
+            got_scms = [{k: x.get(k) for k in e} for x, e in zip(art["scms"], exp)] if len(art["scms"]) == len(exp) else art["scms"]
+            if got_scms != exp:
+                yield ("scm-state", "trail of %s records scms %s, the actual checkout is %s" % (ws, art["scms"], exp), s)
         # direct dependencies, resolved to variant ids through the trail's own records
         deps = art["dependencies"]
 
@@ -281,6 +377,25 @@ def check_invocation(inv, plan_inv, bobver, strict_presence, spec_id, refs_of):
         if (got_args, got_tools, got_sb) != (s["args"], s["tools"], s["sandbox"]):
             yield ("direct-dependencies", "trail of %s records args/tools/sandbox %s, the step uses %s" %
                    (ws, (got_args, got_tools, got_sb), (s["args"], s["tools"], s["sandbox"])), s)
+        if s.get("regenerated"):
+            # a trail written by this invocation took the records of its direct dependencies from their current
+            # trails, and its reference set is the union of theirs
+            dep_keys = [(v, None) for v in s["args"]] + [(v, None) for v in s["tools"].values()] + ([(s["sandbox"], None)] if s["sandbox"] else [])
+            dep_ids = list(deps.get("args", [])) + [deps["tools"][n] for n in s["tools"] if n in deps.get("tools", {})] + \
+                ([deps["sandbox"]] if "sandbox" in deps else [])
+            union, complete = set(), len(dep_ids) == len(dep_keys)
+            for (v, _), i in (zip(dep_keys, dep_ids) if complete else []):
+                dtree = next((t for (vv, _l), t in cur.items() if vv == v), None)
+                if dtree is None:
+                    complete = False
+                    continue
+                if dtree["artifact"]["artifact-id"] != i:
+                    yield ("direct-dependency-record-not-current", "trail of %s refers to record %s for dependency %s whose current trail is %s" %
+                           (ws, i, v, dtree["artifact"]["artifact-id"]), s)
+                union |= {x["artifact-id"] for x in dtree["references"]} | {dtree["artifact"]["artifact-id"]}
+            if complete and union != set(by_id):
+                yield ("references-not-union-of-current-dependency-trails", "trail of %s has records %s, its dependencies' trails give %s" %
+                       (ws, sorted(by_id), sorted(union)), s)
         got_trans = sorted({(x["variant-id"], x["meta"].get("step")) for x in tree["references"]})
         if got_trans != sorted(tuple(x) for x in s["trans"]):
             yield ("references-not-transitive-dependencies", "trail of %s has records for %s, the transitive dependencies are %s" %
@@ -305,7 +420,7 @@ def launch(ctx, idx, sandbox, tmp):
     os.makedirs(os.path.join(d, "proj"), exist_ok=True)
     for inv in plan:
         for k in inv.get("writes", {}):
-            inv["writes"][k] = inv["writes"][k].replace("@ARCHIVE@", os.path.join(d, "archive"))
+            inv["writes"][k] = inv["writes"][k].replace("@ARCHIVE@", os.path.join(d, "archive")).replace("@PROJ@", os.path.join(d, "proj"))
     json.dump(plan, open(pf, "w"))
     env = dict(os.environ)
     env["PYTHONDONTWRITEBYTECODE"] = "1"
